@@ -54,6 +54,8 @@ type layout struct {
 	Seed                        int64
 	Backend                     string
 	Warm, Record                bool
+	PMode                       string
+	Probe                       bool
 }
 
 type group struct {
@@ -79,6 +81,8 @@ type result struct {
 	Goroutines int              `json:"goroutines"`
 	NAcc    int                 `json:"n_accesses"`
 	Changed map[string]int      `json:"changed,omitempty"`
+	Positions map[string][]string `json:"positions,omitempty"` // how each scalar parameter was drawn, per parameter set
+	SecondRuns int              `json:"second_runs"` // Run called again on the same input/parameter objects
 	Digest  string              `json:"digest,omitempty"` // sha256 of the output and state arrays after the vectorised run
 	Extra   map[string]interface{} `json:"extra,omitempty"`
 }
@@ -95,35 +99,84 @@ func isDimName(desc sim.ModelDescription, name string) bool {
 }
 
 // one parameter set: scalar values (dimension parameters included) and tables keyed by parameter name
-func genScalar(model string, p sim.ParameterDescription, rng *rand.Rand) float64 {
+// How scalar parameters are drawn.
+//   std : inside the documented range (no range: the default or a moderate positive value)
+//   edge: each parameter at one of five POSITIONS, rotating with (rot + 2*paramIndex + set):
+//         lo / hi (exactly the range ends), zero (exactly 0 when 0 is inside or at the edge of the
+//         range, or when no range is documented), default, inside
+//   out : outside the documented range: an inside value x100 or negated
+type drawMode struct {
+	kind string
+	rot  int
+}
+
+var positions = []string{"lo", "zero", "inside", "hi", "default"}
+
+func genScalar(model string, p sim.ParameterDescription, rng *rand.Rand, mode drawMode, j, c int) (float64, string) {
 	switch model + "." + p.Name {
 	case "DateGenerator.startDate", "DateGenerator.day":
-		return float64(1 + rng.Intn(28))
+		return float64(1 + rng.Intn(28)), "valid"
 	case "DateGenerator.startMonth", "DateGenerator.month":
-		return float64(1 + rng.Intn(12))
+		return float64(1 + rng.Intn(12)), "valid"
 	case "DateGenerator.startYear", "DateGenerator.year":
-		return float64(1900 + rng.Intn(200))
+		return float64(1900 + rng.Intn(200)), "valid"
 	}
 	lo, hi := p.Range[0], p.Range[1]
-	if hi > lo {
-		w := hi - lo
-		return lo + w*(0.05+0.9*rng.Float64())
+	inside := func() float64 {
+		if hi > lo {
+			w := hi - lo
+			return lo + w*(0.05+0.9*rng.Float64())
+		}
+		if p.Default != 0 && rng.Intn(2) == 0 {
+			return p.Default
+		}
+		return 0.5 + 2.5*rng.Float64()
 	}
-	if p.Default != 0 && rng.Intn(2) == 0 {
-		return p.Default
+	v := inside() // always consume the same random numbers, whatever the mode
+	switch mode.kind {
+	case "edge":
+		pos := positions[(mode.rot+2*j+c)%len(positions)]
+		hasRange := hi > lo
+		switch pos {
+		case "lo":
+			if hasRange {
+				return lo, "lo"
+			}
+			return 0, "zero"
+		case "hi":
+			if hasRange {
+				return hi, "hi"
+			}
+		case "zero":
+			if !hasRange || (lo <= 0 && 0 <= hi) {
+				return 0, "zero"
+			}
+			return lo, "lo"
+		case "default":
+			if !hasRange || (lo <= p.Default && p.Default <= hi) {
+				return p.Default, "default"
+			}
+		}
+		return v, "inside"
+	case "out":
+		if rng.Intn(2) == 0 {
+			return v * 100, "x100"
+		}
+		return -v, "negated"
 	}
-	return 0.5 + 2.5*rng.Float64()
+	return v, "inside"
 }
 
 type paramSet struct {
+	pos     map[string]string
 	scalars map[string]float64
 	dims    map[string]int
 	tables  map[string][]float64 // row-major over the cell's OWN extents
 }
 
-func genParamSet(model string, desc sim.ModelDescription, rng *rand.Rand, shared map[string]float64) paramSet {
-	ps := paramSet{map[string]float64{}, map[string]int{}, map[string][]float64{}}
-	for _, p := range desc.Parameters {
+func genParamSet(model string, desc sim.ModelDescription, rng *rand.Rand, shared map[string]float64, mode drawMode, c int) paramSet {
+	ps := paramSet{map[string]string{}, map[string]float64{}, map[string]int{}, map[string][]float64{}}
+	for pj, p := range desc.Parameters {
 		if len(p.Dimensions) == 0 {
 			if isDimName(desc, p.Name) {
 				d := 2 + rng.Intn(3)
@@ -132,7 +185,7 @@ func genParamSet(model string, desc sim.ModelDescription, rng *rand.Rand, shared
 			} else if v, ok := shared[p.Name]; ok {
 				ps.scalars[p.Name] = v
 			} else {
-				ps.scalars[p.Name] = genScalar(model, p, rng)
+				ps.scalars[p.Name], ps.pos[p.Name] = genScalar(model, p, rng, mode, pj, c)
 			}
 		}
 	}
@@ -177,6 +230,12 @@ func genParamSet(model string, desc sim.ModelDescription, rng *rand.Rand, shared
 				for k := range vals {
 					vals[k] *= 1e-2
 				}
+			}
+			if mode.kind == "out" {
+				for k := range vals {
+					vals[k] *= 100
+				}
+				ps.pos[p.Name] = "x100"
 			}
 			ps.tables[p.Name] = vals
 		}
@@ -262,6 +321,54 @@ func prepModel(name string, p data.ND2Float64, dims []int) sim.TimeSteppingModel
 	return m
 }
 
+// the caller-visible descriptor of an array: Shape(), NDims() and Len(axis) for every axis
+type shaped interface {
+	Shape() []int
+	NDims() int
+	Len(int) int
+}
+
+func descriptor(a shaped) []int {
+	sh := a.Shape()
+	d := []int{a.NDims(), len(sh)}
+	d = append(d, sh...) // a COPY of the extents (Shape() hands out the live slice)
+	for ax := 0; ax < len(sh); ax++ {
+		d = append(d, a.Len(ax))
+	}
+	return d
+}
+
+func sameInts(a, b []int) bool {
+	if len(a) != len(b) {
+		return false
+	}
+	for i := range a {
+		if a[i] != b[i] {
+			return false
+		}
+	}
+	return true
+}
+
+// snapshot the descriptors of the four arrays; the returned function reports those that changed
+func watchShapes(names []string, arrs []shaped) func() []string {
+	before := make([][]int, len(arrs))
+	for i, a := range arrs {
+		before[i] = descriptor(a)
+	}
+	return func() []string {
+		var bad []string
+		for i, a := range arrs {
+			if after := descriptor(a); !sameInts(before[i], after) {
+				bad = append(bad, fmt.Sprintf("%s array descriptor changed by Run: [ndims, len(shape), shape.., Len(axis)..] %v -> %v", names[i], before[i], after))
+			}
+		}
+		return bad
+	}
+}
+
+var arrNames = []string{"parameters", "states", "inputs", "outputs"}
+
 func bitsEqual(a, b []float64) int {
 	if len(a) != len(b) {
 		return 0
@@ -288,6 +395,20 @@ func runCase(t []string) *result {
 	L := &layout{Model: t[0], N: atoi(t[1]), NSets: atoi(t[2]), NIn: atoi(t[3]), T: atoi(t[4]),
 		PadN: atoi(t[5]), PadK: atoi(t[6]), PadT: atoi(t[7]), PadS: atoi(t[8]), Backend: t[10], Warm: t[11] == "1", Record: t[12] == "1"}
 	L.Seed, _ = strconv.ParseInt(t[9], 10, 64)
+	mode := drawMode{kind: "std"}
+	L.PMode = "std"
+	if len(t) > 13 {
+		L.PMode = t[13]
+		if strings.HasPrefix(t[13], "edge") {
+			mode.kind = "edge"
+			mode.rot, _ = strconv.Atoi(t[13][4:])
+		} else if t[13] == "out" {
+			mode.kind = "out"
+		}
+	}
+	if len(t) > 14 {
+		L.Probe = t[14] == "1"
+	}
 	res.Model = L.Model
 	res.Layout = L
 	factory := sim.Catalog[L.Model]
@@ -316,10 +437,18 @@ func runCase(t []string) *result {
 	sets := make([]paramSet, L.NSets)
 	maxd := map[string]int{}
 	for c := range sets {
-		sets[c] = genParamSet(L.Model, desc, rng, shared)
+		sets[c] = genParamSet(L.Model, desc, rng, shared, mode, c)
 		for d, v := range sets[c].dims {
 			if v > maxd[d] {
 				maxd[d] = v
+			}
+		}
+	}
+	res.Positions = map[string][]string{}
+	for _, pd := range desc.Parameters {
+		for c := range sets {
+			if ps, ok := sets[c].pos[pd.Name]; ok {
+				res.Positions[pd.Name] = append(res.Positions[pd.Name], ps)
 			}
 		}
 	}
@@ -397,24 +526,81 @@ func runCase(t []string) *result {
 	}
 	orig := arrays{P: P, S: S, I: I, O: O}
 
+	if L.Probe {
+		// only the N single-cell runs: does the KERNEL survive these parameter draws at all?
+		// (a kernel panic kills the process; the caller then skips the case)
+		for i := 0; i < L.N; i++ {
+			c := i % L.NSets
+			ci := i % L.NIn
+			Pi := make([]float64, nP)
+			for r := 0; r < nP; r++ {
+				Pi[r] = orig.P[r*L.NSets+c]
+			}
+			pa, _, _ := be.make2([]int{nP, 1}, Pi)
+			m := prepModel(L.Model, pa, append([]int(nil), L.MaxDims...))
+			sa, _, _ := be.make2([]int{1, L.S}, append([]float64(nil), orig.S[i*L.S:(i+1)*L.S]...))
+			ia, _, _ := be.make3([]int{1, L.NI, L.T}, append([]float64(nil), orig.I[ci*L.NI*L.T:(ci+1)*L.NI*L.T]...))
+			oa, _, _ := be.make3([]int{1, L.NOut, L.T}, make([]float64, L.NOut*L.T))
+			m.Run(ia, sa, oa)
+		}
+		res.Cmd = "PROBE"
+		return res
+	}
+
 	// (A) vectorised run on plain arrays
-	runVec := func() (arrays, []string) {
+	secondRuns := 0
+	runVec := func(twice bool) (arrays, []string) {
 		pa, pget, pg := be.make2([]int{nP, L.NSets}, orig.P)
 		sa, sget, sg := be.make2([]int{L.N, L.S}, orig.S)
 		ia, iget, ig := be.make3([]int{L.NIn, L.NI, L.T}, orig.I)
 		oa, oget, og := be.make3([]int{L.ON, L.OK, L.OT}, orig.O)
 		m := prepModel(L.Model, pa, nil)
+		changed := watchShapes(arrNames, []shaped{pa, sa, ia, oa})
 		m.Run(ia, sa, oa)
 		var guard []string
+		for _, c := range changed() {
+			guard = append(guard, "vectorised run: "+c)
+		}
 		for _, g := range []func() []string{pg, sg, ig, og} {
 			guard = append(guard, g()...)
 		}
-		return arrays{P: append([]float64(nil), pget()...), S: append([]float64(nil), sget()...),
-			I: append([]float64(nil), iget()...), O: append([]float64(nil), oget()...)}, guard
+		first := arrays{P: append([]float64(nil), pget()...), S: append([]float64(nil), sget()...),
+			I: append([]float64(nil), iget()...), O: append([]float64(nil), oget()...)}
+		if twice {
+			// a SECOND Run on the very same input / parameter / model objects: states reset to the
+			// saved initial values, fresh outputs -> must reproduce the first call bit for bit
+			secondRuns++
+			copy(sget(), orig.S)
+			oa2, oget2, _ := be.make3([]int{L.ON, L.OK, L.OT}, orig.O)
+			m.Run(ia, sa, oa2)
+			if k := bitsEqual(oget2(), first.O); k >= 0 {
+				guard = append(guard, fmt.Sprintf("second Run on the same input/parameter objects differs from the first in outputs at flat offset %d (cell %d): %v vs %v",
+					k, k/(L.OT*L.OK), oget2()[k], first.O[k]))
+			}
+			if k := bitsEqual(sget(), first.S); k >= 0 {
+				guard = append(guard, fmt.Sprintf("second Run on the same input/parameter objects differs from the first in states at flat offset %d", k))
+			}
+			if k := bitsEqual(iget(), orig.I); k >= 0 {
+				guard = append(guard, fmt.Sprintf("inputs modified after two Runs at flat offset %d", k))
+			}
+			for _, c := range changed() {
+				guard = append(guard, "after the second Run: "+c)
+			}
+			// a second MODEL instance driven by the same input object
+			m2 := prepModel(L.Model, pa, nil)
+			copy(sget(), orig.S)
+			oa3, oget3, _ := be.make3([]int{L.ON, L.OK, L.OT}, orig.O)
+			m2.Run(ia, sa, oa3)
+			if k := bitsEqual(oget3(), first.O); k >= 0 {
+				guard = append(guard, fmt.Sprintf("a second model instance run on the same input object differs in outputs at flat offset %d (cell %d)", k, k/(L.OT*L.OK)))
+			}
+			copy(sget(), first.S)
+		}
+		return first, guard
 	}
-	A, guardA := runVec()
+	A, guardA := runVec(L.Seed%3 == 0 || L.N > 64)
 	for _, g := range guardA {
-		fail("guard zone: %s", g)
+		fail("%s", g)
 	}
 	if k := bitsEqual(A.P, orig.P); k >= 0 {
 		fail("parameters modified at flat offset %d", k)
@@ -442,6 +628,7 @@ func runCase(t []string) *result {
 		}
 	}
 	res.Changed = map[string]int{"O": nchO, "S": nchS}
+	res.SecondRuns = secondRuns
 	{
 		h := sha256.New()
 		for _, arr := range [][]float64{A.O, A.S} {
@@ -454,7 +641,7 @@ func runCase(t []string) *result {
 		res.Digest = fmt.Sprintf("%x", h.Sum(nil))
 	}
 	// a second identical vectorised run must be bit-identical (schedule independence, sampled)
-	A2, _ := runVec()
+	A2, _ := runVec(false)
 	if k := bitsEqual(A.O, A2.O); k >= 0 {
 		fail("two vectorised runs differ in outputs at %d", k)
 	}
@@ -494,7 +681,11 @@ func runCase(t []string) *result {
 			Ii := append([]float64(nil), orig.I[ci*L.NI*L.T:(ci+1)*L.NI*L.T]...)
 			ia, _, _ := be.make3([]int{1, L.NI, L.T}, Ii)
 			oa, oget, _ := be.make3([]int{1, L.NOut, L.T}, make([]float64, L.NOut*L.T))
+			changed := watchShapes(arrNames, []shaped{pa, sa, ia, oa})
 			m.Run(ia, sa, oa)
+			for _, c := range changed() {
+				fail("single-cell run of cell %d: %s", i, c)
+			}
 			o1, s1 := oget(), sget()
 			for k := 0; k < L.NOut; k++ {
 				for tt := 0; tt < L.T; tt++ {
@@ -529,7 +720,11 @@ func runCase(t []string) *result {
 		m.ApplyParameters(pv)
 		mainG := goid()
 		setup := len(log.acc)
+		changedRec := watchShapes(arrNames, []shaped{pv, sv, iv, ov})
 		m.Run(iv, sv, ov)
+		for _, c := range changedRec() {
+			fail("recorded run: %s", c)
+		}
 		if k := bitsEqual(oroot.buf, A.O); k >= 0 {
 			fail("recorded run differs from plain run in outputs at %d", k)
 		}
@@ -711,7 +906,7 @@ func initCase(t []string) *result {
 	sets := make([]paramSet, nSets)
 	maxd := map[string]int{}
 	for c := range sets {
-		sets[c] = genParamSet(t[0], desc, rng, shared)
+		sets[c] = genParamSet(t[0], desc, rng, shared, drawMode{kind: "std"}, c)
 		if hetero && t[0] == "Lag" {
 			sets[c].scalars["timeLag"] = float64(rng.Intn(5))
 		}
